@@ -15,14 +15,19 @@ Definition qchar (q : quote) : option ascii :=
 (* format_quotes(name, quote_char): no escaping *)
 Definition fqq (q : quote) (s : string) : string := fq (qstr q) s.
 
-(* Table(name) / Table(name, schema=s); multi-level schemas are not modelled *)
-Record table := mk_table { tname : string; tschema : option string }.
-(* Table.get_sql(quote_char=q): "{schema}.{table}", no alias, no FOR *)
+(* Table(name, schema=..., alias=...): [tschema] is the chain of schema names OUTERMOST FIRST
+   (Table('t', schema=('db','s')), Database('db').s.t, nested Schema objects: ["db"; "s"]);
+   [talias] the alias a Table object shared with a SELECT may carry *)
+Record table := mk_table { tname : string; tschema : list string; talias : option string }.
+Definition tbl (n : string) : table := mk_table n [] None.
+Definition tbls (s n : string) : table := mk_table n [s] None.
+Definition tpath (t : table) : list string := (tschema t ++ [tname t])%list.
+Definition render_path (q : quote) (l : list string) : string := join "." (map (fqq q) l).
+(* Table.get_sql(quote_char=q): Schema.get_sql renders parent "." name recursively; no FOR clause;
+   format_alias_sql(sql, alias, quote_char=q) - alias_quote_char and as_keyword are not passed by the
+   DDL builders, so an alias is appended as: space, alias quoted with q *)
 Definition render_table (q : quote) (t : table) : string :=
-  match tschema t with
-  | Some s => fqq q s ++ "." ++ fqq q (tname t)
-  | None => fqq q (tname t)
-  end.
+  fmt_alias (render_path q (tpath t)) (talias t) (qstr q) None false.
 
 (* Column(name, type, nullable, default).  [cdefault] is the already rendered text of the default
    term (ValueWrapper(default).get_sql under the builder's keyword arguments) - opaque here. *)
@@ -398,18 +403,35 @@ Fixpoint omap {A B} (f : A -> option B) (l : list A) : option (list B) :=
   | a :: r => match f a, omap f r with Some b, Some l' => Some (b :: l') | _, _ => None end
   end.
 
-Definition read_table (q : quote) (s : string) : option (table * string) :=
-  match read_name q s with
-  | Some (a, r) =>
-      match r with
-      | String c r1 =>
-          if Ascii.eqb c "." then
-            match read_name q r1 with Some (b, r') => Some (mk_table b (Some a), r') | None => None end
-          else Some (mk_table a None, r)
-      | EmptyString => Some (mk_table a None, r)
+(* a dotted chain of identifiers read with [rd]; one unit of fuel per component *)
+Fixpoint read_path_gen (rd : string -> option (string * string)) (fuel : nat) (s : string) : option (list string * string) :=
+  match fuel with
+  | O => None
+  | S f =>
+      match rd s with
+      | Some (a, r) =>
+          match r with
+          | String c r1 =>
+              if Ascii.eqb c "." then
+                match read_path_gen rd f r1 with Some (l, r') => Some (a :: l, r') | None => None end
+              else Some ([a], r)
+          | EmptyString => Some ([a], r)
+          end
+      | None => None
       end
+  end.
+
+(* the last component is the table, the ones before it the schema chain, outermost first *)
+Definition table_of_path (l : list string) : option table :=
+  match rev l with n :: sc => Some (mk_table n (rev sc) None) | [] => None end.
+
+Definition read_table_gen (rd : string -> option (string * string)) (s : string) : option (table * string) :=
+  match read_path_gen rd (S (String.length s)) s with
+  | Some (l, r) => match table_of_path l with Some t => Some (t, r) | None => None end
   | None => None
   end.
+
+Definition read_table (q : quote) (s : string) : option (table * string) := read_table_gen (read_name q) s.
 
 (* n1,n2,...) ++ rest  ->  ([n1; n2; ...], rest) *)
 Definition names_block (q : quote) (s : string) : option (list string * string) :=
@@ -650,18 +672,7 @@ Definition read_any (s : string) : option (string * string) :=
   if starts_dq s then read_name QDouble s else read_name QNone s.
 Definition unquote_any (x : string) : option string :=
   if starts_dq x then unquote QDouble x else unquote QNone x.
-Definition read_table_any (s : string) : option (table * string) :=
-  match read_any s with
-  | Some (a, r) =>
-      match r with
-      | String c r1 =>
-          if Ascii.eqb c "." then
-            match read_any r1 with Some (b, r') => Some (mk_table b (Some a), r') | None => None end
-          else Some (mk_table a None, r)
-      | EmptyString => Some (mk_table a None, r)
-      end
-  | None => None
-  end.
+Definition read_table_any (s : string) : option (table * string) := read_table_gen read_any s.
 Definition trim1 (s : string) : string :=
   match s with String a r => if Ascii.eqb a " " then r else s | EmptyString => s end.
 
@@ -793,7 +804,12 @@ Definition state_of (t : table) (calls : list ccall) : cstate :=
 
 (* --- hypotheses of the round-trip theorem, as boolean predicates --- *)
 Definition table_ok (q : quote) (t : table) : bool :=
-  (name_ok q (tname t) && match tschema t with Some s => name_ok q s | None => true end)%bool.
+  (name_ok q (tname t) && forallb (name_ok q) (tschema t) && negb (is_some (talias t)))%bool.
+
+(* a Table object as it may be handed to a DDL builder: possibly carrying an alias *)
+Definition table_wide (q : quote) (t : table) : bool :=
+  (name_ok q (tname t) && forallb (name_ok q) (tschema t)
+   && match talias t with Some a => name_ok q a | None => true end)%bool.
 
 (* a bare name must not be one of the words the reader classifies by *)
 Definition kw_free (q : quote) (n : string) : bool :=
@@ -821,7 +837,7 @@ Definition is_body_call (c : ccall) : bool :=
    - a column body has at least one column;
    - names are quote-free (format_quotes does not escape), types/defaults are balanced opaque texts *)
 Definition spec_ok (q : quote) (t : table) (calls : list ccall) : bool :=
-  (table_ok q t && kw_free q (match tschema t with Some s => s | None => tname t end)
+  (table_ok q t && kw_free q (match tschema t with s :: _ => s | [] => tname t end)
    && negb (existsb is_call_temporary calls && existsb is_call_unlogged calls)
    && match last_sel calls with
       | Some _ => negb (existsb is_body_call calls)
@@ -847,7 +863,7 @@ Definition index_ast_of (i : iname) (calls : list icall) : index_ast :=
   let st := ibuild i calls in
   mk_index_ast (i_unique st) (i_ine st)
     (match i_index st with INStr s => s | INObj s => s end)
-    (match i_table st with Some (ITObj t) => t | Some (ITStr s) => mk_table s None | None => mk_table "" None end)
+    (match i_table st with Some (ITObj t) => t | Some (ITStr s) => tbl s | None => tbl "" end)
     (map cname (i_columns st))
     (match i_wheres st with [] => None | ws => Some (join " AND " ws) end).
 
@@ -874,10 +890,10 @@ Definition index_wide (st : istate) : bool :=
 
 (* --- DROP description --- *)
 Definition target_table (tg : dtarget) : table :=
-  match tg with DTDatabase n => mk_table n None | DTTable t => t | DTStr s => mk_table s None end.
+  match tg with DTDatabase n => tbl n | DTTable t => t | DTStr s => tbl s end.
 Definition target_ok (q : quote) (tg : dtarget) : bool :=
   let t := target_table tg in
-  (table_ok q t && kw_free q (match tschema t with Some s => s | None => tname t end))%bool.
+  (table_ok q t && kw_free q (match tschema t with s :: _ => s | [] => tname t end))%bool.
 
 (* one drop_xxx call, optional if_exists / on_cluster in any order around it *)
 Record drop_spec := mk_drop_spec { ds_kind : dkind; ds_target : dtarget; ds_if_exists : bool; ds_cluster : option string }.
